@@ -19,6 +19,7 @@ ObsLite(ds, s) == LET o == Obs(ds, s) IN
 TDeclare == /\ Ev.k # "reset"
             /\ Declare(Ev.s, Ev.k, Ev.n, Ev.t)
             /\ sclast'.r = Ev.r
+            /\ Ev.pre = <<IF Declared(decls, Ev.s, Ev.n) THEN 1 ELSE 0, Select(decls, Ev.s, Ev.n, Ev.t)>>   \* asked just before the call
             /\ Ev.o = ObsLite(decls', Ev.s)
             /\ \A i \in 1..Len(Ev.q) :
                   /\ Ev.q[i][3] = (IF Declared(decls', Ev.s, Ev.q[i][1]) THEN 1 ELSE 0)
